@@ -62,6 +62,8 @@ PROVIDERS = [
     ((b"T1", b"T2", b"T3", b""), 4),
     ((b"A" * 5000, b"\x00"), 2),  # very large first token, 1-byte NUL second token
     ((b"\x00", b"B" * 256, b"\xff" * 255), 3),
+    ((b"SAME", b"SAME", b"SAME"), 3),  # byte-identical tokens on consecutive legs are still tokens: each is sent, once
+    ((b"T1", b"T1"), 2),
 ]
 
 
